@@ -90,7 +90,16 @@ func sortedKeys[V any](m map[string]V) []string {
 
 // genQP draws an RLWE literal suited for exact differential execution (results are compared bit by bit between
 // original and copy, so noise growth is irrelevant; sizes only have to be accepted by the constructors).
+// bigLogN widens the ring-degree range in the thorough tier: one case in ten uses N = 2*maxN .. 8*maxN.
+func bigLogN(t *rapid.T, minLogN, maxLogN int) (int, int) {
+	if h.Thorough() && rapid.IntRange(0, 9).Draw(t, "bigN") == 0 {
+		return maxLogN + 1, maxLogN + 3
+	}
+	return minLogN, maxLogN
+}
+
 func genRLWE(t *rapid.T, minLogN, maxLogN, maxQ, maxP int, allowCI bool, ntt *bool) h.RLWESpec {
+	minLogN, maxLogN = bigLogN(t, minLogN, maxLogN)
 	return h.GenRLWESpec(t, h.RLWEOpts{MinLogN: minLogN, MaxLogN: maxLogN, MinQ: 1, MaxQ: maxQ, MinP: 0, MaxP: maxP,
 		MinBits: 30, MaxBits: 60, AllowCI: allowCI, NTT: ntt, DefaultDists: false, PBits: 61})
 }
